@@ -173,8 +173,12 @@ class Mnemonic(object):
         if isinstance(words, TYPE_TEXT):
             words = words.split(' ')
         wi = []
+        wordlist = self._wordlist
+        if any(word not in wordlist for word in words):
+            # Sentence is in another language than this Mnemonic object was created for
+            wordlist = Mnemonic(self.detect_language(' '.join(words)))._wordlist
         for word in words:
-            wi.append(self._wordlist.index(word))
+            wi.append(wordlist.index(word))
         ent_length = int(len(words) * 4/3)
         ent = change_base(wi, 2048, 256, ent_length, output_even=False)
         if includes_checksum:
